@@ -336,8 +336,11 @@ class Gen:
                 self.assumptions.append(" ".join(toks))
             elif cmd in ("const", "static"):
                 src = Source.get(os.path.join(self.root, toks[0]))
+                mkpub = "pub" in toks[1:]
                 for nm in toks[1:]:
-                    self._emit_item(src, r"^\s*(pub(\([a-z]+\))?\s+)?(const|static)\s+" + re.escape(nm) + r"\b", name)
+                    if nm == "pub":
+                        continue
+                    self._emit_item(src, r"^\s*(pub(\([a-z]+\))?\s+)?(const|static)\s+" + re.escape(nm) + r"\b", name, mkpub)
             elif cmd in ("struct", "enum", "trait"):
                 src = Source.get(os.path.join(self.root, toks[0]))
                 for nm in toks[1:]:
@@ -371,7 +374,7 @@ class Gen:
                 raise Undecided(f"{rel_tpl}:{i+1}: unknown directive {cmd}")
             i += 1
 
-    def _emit_item(self, src, header_re, fragname):
+    def _emit_item(self, src, header_re, fragname, mkpub=False):
         r = src.find_block(header_re)
         if r is None:
             raise Undecided(f"lost anchor: item /{header_re}/ not found in {src.rel}")
@@ -380,7 +383,13 @@ class Gen:
         lines = text.split("\n")
         # split leading attribute lines from the rest, filter only attributes anywhere in item
         lines = filter_attr_lines(lines, self.log)
-        # strip doc comments inside
+        if mkpub:
+            # visibility only: a private constant made nameable from pub open spec functions (logged)
+            for i, l in enumerate(lines):
+                if re.match(r"\s*(const|static)\s", l):
+                    lines[i] = re.sub(r"^(\s*)(const|static)", r"\1pub \2", l)
+                    self.log.append(f"VIS {src.rel}: private item made pub in the generated crate: {l.strip()[:60]}")
+                    break
         self.out.emit("\n".join(lines), ("repo", src.rel, line_of(src.text, b)), list(self.tags))
         self.functions.append(dict(kind="item", name=header_re, file=src.rel,
                                    lines=[line_of(src.text, b), line_of(src.text, e - 1)],
